@@ -14,7 +14,7 @@ CHECKS = {
          "Every history over the C04 alphabet up to depth 4 (quick) / 5 (thorough) on five patterns that split one another; in every reachable state the Allow header of OPTIONS and 405 responses as sent, Node().Methods(), Node().AllowHeader(), Routes() and OPTIONS * are compared with the model, including the initial state observed in a virgin process.",
          "Bounded depth and pool; the OPTIONS/405 handlers are the harness's builder-made handlers which read AllowHeader() at request time, as README and examples/std do.", "4/C04"),
  "C05": ("SI", "explicit-state BFS over Handle/Remove/Clean histories with a hostile request alphabet in every state, plus exhaustive enumeration of all pattern strings up to a length bound through every pattern-taking entry point",
-         "(a) every state of the lifecycle search (depth 3 quick / 4 thorough) probed with empty/unknown methods and hostile paths ('', '*', all byte strings over a 9-byte alphabet incl. NUL and non-UTF-8 up to length 2-3, edit-1 neighbours of witnesses, 32K/64K paths); groups behind every matcher kind with all Host strings over an 8-byte alphabet up to length 3 and malformed Accept values; (b) all 3.3M (quick, len<=6) / 39M (thorough, len<=7) pattern strings over a 12-byte syntax alphabet through CheckSyntax, URL, Router.URL, Handle on fresh and populated routers, then served.",
+         "(a) every state of the lifecycle search (depth 3 quick / 4 thorough) probed with empty/unknown methods and hostile paths ('', '*', all byte strings over a 9-byte alphabet incl. NUL and non-UTF-8 up to length 2-3, edit-1 neighbours of witnesses, 32K/64K paths); groups behind every matcher kind with all Host strings over an 8-byte alphabet up to length 3 and malformed Accept values; (b) all pattern strings up to length 5, and length 6 where a parameter token can still be completed (quick) / all 39M up to length 7 (thorough), plus every rule text up to length 4 / 6 over a 14-byte regexp alphabet wrapped in four pattern shapes, over a 12-byte syntax alphabet through CheckSyntax, URL, Router.URL, Handle on fresh and populated routers, then served.",
          "Bounded string lengths and alphabets chosen to contain every byte the parser and matcher distinguish; the harness handler never panics by itself.", "4/C05"),
  "C06": ("C", "stateless DFS over thread schedules of the real router under a controlled scheduler (points at lock announce/acquire/release, pool get/put, handler entry/exit, operation boundaries), iterative preemption bounding, race detector as per-execution oracle plus brute-force linearizability against sequential re-execution",
          "All 2- and 3-thread scenarios over the C06 writer/reader alphabet (about 330 quick) on a WithLock(true) router; every interleaving up to 2 preemptions (quick) / 3-4 (thorough) is executed under -race with a hand-off the detector cannot see, so conflicting accesses that mux does not order are reported for that schedule; no panic, no nil handler, no deadlock (writer preference modelled), every result vector linearizable and the final Routes() equal to that linearization's.",
